@@ -81,6 +81,10 @@ func check(id, tier, repo, verif, onlyCfg string) (code int) {
 	}()
 	seed, _ := strconv.Atoi(os.Getenv("VERIF_SEED"))
 	repo, _ = filepath.Abs(repo)
+	props.VerifDir, _ = filepath.Abs(verif)
+	if _, err := os.Stat(filepath.Join(props.VerifDir, "bin", "goyacc")); err != nil {
+		props.VerifDir = "/verif" // mutant runs use a scratch verif dir; tools stay in /verif/bin
+	}
 	rep := core.NewReport(id, tier)
 	for _, cfg := range core.Configs(tier) {
 		if onlyCfg != "" && cfg.Name != onlyCfg {
